@@ -138,6 +138,35 @@ pub fn gen_mix(rng: &mut Rng, _thorough: bool) -> J {
         return json!({"mode": "mix", "variantRoot": true, "spec": enc_spec(&spec.0), "parents": parents.iter().map(|p| enc_value(&p.0)).collect::<Vec<_>>(),
                       "sp": crate::ops::pclass(sp), "outs": outs});
     }
+    if rng.chance(1, 4) {
+        // three parents that share leaf values pairwise - (T,T), (T,F), (F,T) and the like for ints / reals: at selection
+        // pressure < 1 every leaf is still drawn among ALL parents, so the first parent's value does not always win
+        let kind = rng.below(3);
+        let (node, vals): (spec::Node, [value::Node; 2]) = match kind {
+            0 => (spec::Node::Bool { init: false }, [value::Node::Bool(true), value::Node::Bool(false)]),
+            1 => (spec::Node::Int { init: 0, scale: 1.0, min: Some(-5), max: Some(5) }, [value::Node::Int(1), value::Node::Int(-2)]),
+            _ => (spec::Node::Real { init: 0.0, scale: 1.0, min: None, max: None }, [value::Node::Real(0.25), value::Node::Real(-1.5)]),
+        };
+        let mut map = FxHashMap::default();
+        map.insert("x".to_string(), Box::new(node.clone()));
+        map.insert("y".to_string(), Box::new(node));
+        let spec = spec::Spec(spec::Node::Sub { map });
+        let mk = |a: usize, b: usize| -> value::Value { let mut m = FxHashMap::default(); m.insert("x".to_string(), Box::new(vals[a].clone())); m.insert("y".to_string(), Box::new(vals[b].clone())); value::Value(value::Node::Sub(m)) };
+        let parents = vec![mk(0, 0), mk(0, 1), mk(1, 0)];
+        let refs: Vec<&value::Value> = parents.iter().collect();
+        let sp = *rng.pick(&[0.0, 0.5, 0.25]);
+        let cparams = CrossoverParams { crossover_prob: 1.0, selection_pressure: sp };
+        let crossover = Crossover::new();
+        let mut outs = Vec::new();
+        for _ in 0..64 {
+            let mut path_ctx = PathContext::default();
+            for p in &parents { path_ctx.add_nodes_for(p); }
+            let mut std_rng = StdRng::seed_from_u64(rng.next());
+            outs.push(enc_value(&crossover.crossover(&spec, &refs, &cparams, &mut path_ctx, &mut std_rng).0));
+        }
+        return json!({"mode": "mix", "sharedLeaves": true, "spec": enc_spec(&spec.0), "parents": parents.iter().map(|p| enc_value(&p.0)).collect::<Vec<_>>(),
+                      "sp": crate::ops::pclass(sp), "outs": outs});
+    }
     let as_array = rng.chance(1, 3);
     let leaf = |rng: &mut Rng| -> spec::Node { match rng.below(3) { 0 => spec::Node::Bool { init: false }, 1 => spec::Node::Int { init: 0, scale: 1.0, min: Some(-5), max: Some(5) }, _ => spec::Node::Enum { values: vec!["p".into(), "q".into(), "r".into()], init: "p".into() } } };
     let node = if as_array { spec::Node::Array { value_type: Box::new(leaf(rng)), size: k } } else {
@@ -186,6 +215,8 @@ pub struct Problem { pub name: String, pub spec: String, pub budget: usize, pub 
 
 fn f_sphere(v: &J, s: f64) -> f64 { v.as_object().unwrap().values().map(|x| { let x = x.as_f64().unwrap() / s; x * x }).sum() }
 fn f_bound(v: &J, _s: f64) -> f64 { v.as_f64().unwrap() }
+fn f_far(v: &J, _s: f64) -> f64 { (v.as_f64().unwrap() - 1e6).abs() }
+fn f_deep(v: &J, _s: f64) -> f64 { v.as_f64().unwrap().abs() }
 fn f_grid(v: &J, _s: f64) -> f64 { let a = v["a"].as_i64().unwrap() as f64; let b = v["b"].as_i64().unwrap() as f64; (a - 7.0) * (a - 7.0) + (b + 3.0) * (b + 3.0) }
 fn f_onemax(v: &J, _s: f64) -> f64 { v.as_array().unwrap().iter().filter(|b| !b.as_bool().unwrap()).count() as f64 }
 fn f_mapsize(v: &J, _s: f64) -> f64 { (v.as_object().unwrap().len() as f64 - 10.0).abs() }
@@ -209,6 +240,10 @@ pub fn battery() -> Vec<Problem> {
     v.push(Problem { name: "onemax".into(), spec: "type: array\nsize: 16\nvalueType:\n  type: bool\n  init: false\n".into(), budget: 2000, f: f_onemax, scale: 1.0 });
     v.push(Problem { name: "mapsize".into(), spec: "type: anon map\ninitSize: 1\nvalueType:\n  type: bool\n  init: false\n".into(), budget: 1000, f: f_mapsize, scale: 1.0 });
     v.push(Problem { name: "mapshrink".into(), spec: "type: anon map\ninitSize: 7\nvalueType:\n  type: bool\n  init: false\n".into(), budget: 1000, f: f_mapshrink, scale: 1.0 });
+    // the useful step size is many orders of magnitude away from the declared scale: only adaptation of the mutation
+    // scale over generations gets there (optimum 1e6 scales away; convergence 12 orders below the scale)
+    v.push(Problem { name: "far".into(), spec: "type: real\ninit: 0.0\nscale: 1.0\n".into(), budget: 10000, f: f_far, scale: 1.0 });
+    v.push(Problem { name: "deep".into(), spec: "type: real\ninit: 1.0\nscale: 1000.0\n".into(), budget: 10000, f: f_deep, scale: 1.0 });
     v.push(Problem { name: "choice".into(), spec: "type: variant\ninit: a\na:\n  type: real\n  init: 0.0\n  scale: 1.0\nb:\n  type: enum\n  values: [x, y, z]\n  init: x\n".into(), budget: 500, f: f_choice, scale: 1.0 });
     v
 }
